@@ -381,9 +381,20 @@ func main() {
 	}
 
 	// ---- TXT configuration space readers ----
-	nimg := c.Scale(25, 200)
+	nimg := c.Scale(30, 200)
 	for i := 0; i < nimg; i++ {
-		img := make([]byte, 0x1000)
+		// lengths: the minimal image holding every register (0x420: the public key ends there),
+		// one byte more, random lengths in between, and the usual 4 KiB
+		ilen := 0x1000
+		switch i % 5 {
+		case 0:
+			ilen = 0x420
+		case 1:
+			ilen = 0x421
+		case 2:
+			ilen = 0x420 + c.Rng.Intn(0x1000-0x420)
+		}
+		img := make([]byte, ilen)
 		switch i % 3 {
 		case 0:
 			c.Rng.Read(img)
@@ -392,18 +403,18 @@ func main() {
 				img[c.Rng.Intn(len(img))] = byte(c.Rng.Intn(256))
 			}
 		default: // only register bytes set
-			for _, off := range []int{0, 8, 0x30, 0xa0, 0x100, 0x110, 0x200, 0x270, 0x278, 0x290, 0x300, 0x308, 0x328, 0x330, 0x378, 0x400} {
+			for _, off := range []int{0, 8, 0x30, 0xa0, 0x100, 0x110, 0x200, 0x270, 0x278, 0x290, 0x300, 0x308, 0x328, 0x330, 0x378, 0x400, 0x408, 0x410, 0x418} {
 				c.Rng.Read(img[off : off+8])
 			}
 		}
 		var regs registers.Registers
 		var rerr error
 		if p, msg := gal.Recover(func() { regs, rerr = registers.ReadTXTRegisters(img) }); p {
-			c.OracleFail(-1, "ReadTXTRegisters panics on a 4 KiB image: "+msg, "registers.ReadTXTRegisters", nil)
+			c.OracleFail(-1, fmt.Sprintf("ReadTXTRegisters panics on a %#x-byte image (all registers lie below 0x420): %s", ilen, msg), "registers.ReadTXTRegisters", map[string]interface{}{"image_length": ilen})
 			continue
 		}
 		if rerr != nil {
-			c.OracleFail(-1, "ReadTXTRegisters fails on a 4 KiB image: "+rerr.Error(), "registers.ReadTXTRegisters", nil)
+			c.OracleFail(-1, fmt.Sprintf("ReadTXTRegisters fails on a %#x-byte image although every register lies below 0x420: %s", ilen, rerr.Error()), "registers.ReadTXTRegisters", map[string]interface{}{"image_length": ilen})
 			continue
 		}
 		var obs []string
@@ -483,6 +494,11 @@ func describe(a accSpec) string {
 func decodersDisagree(img []byte, regs registers.Registers) string {
 	rs, err := tools.ParseTXTRegs(img)
 	if err != nil {
+		if len(img) < 0x8f8 {
+			// pkg/tools also reads TXT.E2STS at 0x8f0: on a shorter image it reports no field at all,
+			// so there is nothing the two decoders could disagree on
+			return ""
+		}
 		return "tools.ParseTXTRegs fails where registers.ReadTXTRegisters succeeds: " + err.Error()
 	}
 	type pair struct {
